@@ -208,5 +208,14 @@ func (m *MuxBroker) timeoutWait(id uint32, p *muxBrokerPending) {
 			s.Close()
 		default:
 		}
+	} else {
+		// The pending connection was accepted. A stream parked in the slot
+		// after that (a second dial to the same ID) will never be picked up
+		// either: close it so its dialer fails instead of waiting forever.
+		select {
+		case s := <-p.ch:
+			s.Close()
+		default:
+		}
 	}
 }
